@@ -272,11 +272,34 @@ def r_source(e, indent, counter):
     return '{\n%s\n%s}' % ('\n'.join(sub), '  ' * indent)
 
 
-def populate_text(sc):
+OUT = '@OUT'      # stands for the directory (outside the sandbox, inside the task's scratch) that link targets name
+
+
+def link_target(p, out=OUT):
+    return '%s/t-%s' % (out, '-'.join(CHAR[n] for n in p[1:]))
+
+
+def init_command(init, out):
+    """The shell command that gives D its contents before the instruction under test (files, directories, links)."""
+    cmds = ['mkdir D']
+    for nd in sorted(init, key=lambda x: (len(x['p']), x['p'])):
+        path = rel_path(nd['p'])
+        if nd['k'] == 'd':
+            cmds.append('mkdir ' + path)
+        elif nd['k'] == 'f':
+            cmds.append(': > ' + path)
+        else:
+            cmds.append('ln -s %s %s' % (link_target(nd['p'], out), path))
+    return '$ ' + ' && '.join(cmds)
+
+
+def populate_text(sc, out=OUT):
     top = sc['top'][0]
     counter = [0]
     lines = ['[setup]']
-    if sc['pre']:
+    if sc.get('init'):
+        lines.append(init_command(sc['init'], out))
+    elif sc['pre']:
         lines.append('dir D')
     s = 'dir D'
     if top['mod'] != 'none':
@@ -292,7 +315,10 @@ def expected_tree(sc):
     exp = {}
     for nd in sc['nodes']:
         p = rel_path(nd['p'])
-        exp[p] = 'd' if nd['k'] == 'd' else 'f:' + text_of(nd['c'])
+        if nd['k'] in ('lf', 'ld', 'lb'):
+            exp[p] = 'l:' + link_target(nd['p'])
+        else:
+            exp[p] = 'd' if nd['k'] == 'd' else 'f:' + text_of(nd['c'])
     return exp
 
 
@@ -310,19 +336,27 @@ def exec_populate(task, cd):
     from harness import inproc
     c0 = time.process_time()
     sc = task['sc']
-    text = task.get('text') or populate_text(sc)
+    text = (task.get('text') or populate_text(sc)).replace(OUT, cd.out)
     cd.write({'c.case': text, 'src/a': '8', 'src/b/a': '8'})
-    before = inproc.tree_snapshot(cd.home)
+    for nd in sc.get('init') or []:           # what the links point to: a file, a directory, nothing
+        if nd['k'] == 'lf':
+            with open(link_target(nd['p'], cd.out), 'w') as fh:
+                fh.write('7')
+        elif nd['k'] == 'ld':
+            os.mkdir(link_target(nd['p'], cd.out))
+    before = inproc.tree_snapshot(cd.home), inproc.tree_snapshot(cd.out)
     r = inproc.run_main(['--keep', 'c.case'], cd)
-    after = inproc.tree_snapshot(cd.home)
+    after = inproc.tree_snapshot(cd.home), inproc.tree_snapshot(cd.out)
     sds = r['stdout'].strip()
     act = user_tmp = None
     if sds and os.path.isdir(os.path.join(sds, 'act')):
-        act = inproc.tree_snapshot(os.path.join(sds, 'act'))
+        act = {k: v.replace(cd.out, OUT) for k, v in inproc.tree_snapshot(os.path.join(sds, 'act')).items()}
         user_tmp = sorted(os.listdir(os.path.join(sds, 'tmp')))
     return dict(verdict=_ident(r, True), exit=r['exit'], act=act, user_tmp=user_tmp, sandboxes=len(cd.sandboxes()),
-                home_changed=before != after, tmp_entries=len(os.listdir(cd.tmp)), stderr=r['stderr'][:600],
-                text=text, cpu=time.process_time() - c0)
+                home_changed=before[0] != after[0], tmp_entries=len(os.listdir(cd.tmp)),
+                out_changed=sorted(k for k in set(before[1]) | set(after[1]) if before[1].get(k) != after[1].get(k)),
+                stderr=r['stderr'][:600].replace(cd.out, OUT), text=text.replace(cd.out, OUT),
+                cpu=time.process_time() - c0)
 
 
 def exec_tree(task, cd):
@@ -375,6 +409,8 @@ def compare_populate(sc, o):
     if broken(o) or o['verdict'].startswith('EXCEPTION'):
         return 'Terminates/NoEscapingException'
     res = sc['res']
+    if o.get('out_changed'):
+        return 'NothingOutside: written through a symbolic link of the populated directory: %s' % o['out_changed']
     if o['verdict'] != res:
         if res == 'PASS' and o['verdict'] == 'FAIL':
             return 'PopulateThenMatchRoundTrip: the populated directory does not match the description of the tree'
@@ -594,17 +630,22 @@ def run(ctx):
             # model-level negative control: without the validation of names the step machine escapes
             dict(module='DirTree', cfg=cfg(COVERAGE, ['invalid'], ['NothingOutside'],
                                            deviations=['NoNameValidation']), name='mc-deviation', workers=1,
+                 count=False, must_hold=False),
+            # ... and a clash check that follows symbolic links writes through a dangling link
+            dict(module='DirTree', cfg=cfg(COVERAGE, ['populate'], ['NothingOutside'],
+                                           deviations=['CopyClashFollowsLinks']), name='mc-deviation-links', workers=1,
                  count=False, must_hold=False)]
     for s in range(nshards):
         jobs.append(dict(module='DirTreeExport', cfg=cfg(consts, ALL_FAMILIES, INVARIANTS + ['Export'], nshards, s),
                          workers=1, name='export-%d' % s, heap='3g', timeout=3000, java_props=GC))
     results = tlc_parallel(ctx, jobs, threads=16)
-    mc, anyorder, dev, shards = results[0], results[1], results[2], results[3:]
+    mc, anyorder, shards = results[0], results[1], results[4:]
     ctx.require_coverage(mc, ACTIONS)
-    if dev.violated != 'NothingOutside':
-        raise core.MachineryFailure('model-level negative control: with Deviations = {NoNameValidation} TLC must '
-                                    'report NothingOutside violated, it reports %s' % dev.violated)
-    ctx.cov['negative_controls_rejected'] += 1
+    for dev, name in ((results[2], 'NoNameValidation'), (results[3], 'CopyClashFollowsLinks')):
+        if dev.violated != 'NothingOutside':
+            raise core.MachineryFailure('model-level negative control: with Deviations = {%s} TLC must report '
+                                        'NothingOutside violated, it reports %s' % (name, dev.violated))
+        ctx.cov['negative_controls_rejected'] += 1
     scs = []
     for r in shards:
         scs += cases_of(r)
@@ -683,6 +724,18 @@ def run(ctx):
     for want in ('PASS', 'HARD_ERROR', 'VALIDATION_ERROR'):
         if not stats['populate_by_result'].get(want):
             raise core.MachineryFailure('vacuity: no FILE-LIST with result %s' % want)
+    pre_kinds = {}
+    for sc in pop:
+        for nd in sc.get('init') or []:
+            if tuple(nd['p']) != (D_NAME, 3) and sc['res'] == 'HARD_ERROR':
+                k = '%s %s' % (nd['k'], 'clash while copying' if not sc['exact'] else 'entry fails')
+                pre_kinds[k] = pre_kinds.get(k, 0) + 1
+    stats['pre_existing_hard_errors'] = pre_kinds
+    for kd in ('f', 'd', 'lf', 'ld', 'lb'):
+        for how in ('clash while copying', 'entry fails'):
+            if not pre_kinds.get('%s %s' % (kd, how)):
+                raise core.MachineryFailure('vacuity: no scenario in which an existing %s entry makes the instruction fail '
+                                            '(%s)' % (kd, how))
     for want in 'TFH':
         if not stats['probe_verdicts'].get(want):
             raise core.MachineryFailure('vacuity: no probe with verdict %s' % want)
@@ -699,7 +752,9 @@ def run(ctx):
         'every FILE-LIST with <= %d entries (nested entries counted; of those with exactly %d entries the slice '
         'hash %% %d = %d; of the failing ones those with <= %d entries after the failing entry) over the names a, b, a/b '
         'x {file, file =, file +=, dir, dir = {..}, dir += {..}, dir (=|+=) dir-contents-of}, the other forms of the '
-        'instruction (+= on an existing / missing directory, = on an existing one), 288 lists with an invalid name '
+        'instruction (+= on an existing / missing directory, = on an existing one), %d scenarios that populate a '
+        'directory already holding a file, a directory, a link to a file / to a directory or a dangling link with the '
+        'name of what is created (dir-contents-of, file n, dir n; directly and nested), 288 lists with an invalid name '
         '(empty, .., ../a, a/.., a/../b, /a; alone, before / after working and failing entries, nested); every tree '
         'with <= %d nodes over %d names, %d levels, kinds %s%s x (non-recursive + every (min, max) up to one more than '
         'the depth of the tree) on the plain model, and 3..8 option sets x %d pruning/selection combinations (nested '
@@ -708,7 +763,7 @@ def run(ctx):
         'fails or builds more than one file; tree scenario with a non-empty tree and -recursive or pruning/selection; '
         'every exists / names scenario; distinct by text.'
         % (consts['MaxEntries'], consts['MaxEntries'], consts['ListMod'], consts['ListPick'], consts['MaxTail'],
-           consts['MaxNodes'], consts['NN'], consts['MaxLevels'], consts['LeafKinds'],
+           sum(1 for sc in by_fam['populate'] if sc.get('init')), consts['MaxNodes'], consts['NN'], consts['MaxLevels'], consts['LeafKinds'],
            (' + the slice index %% %d = %d of the trees with %d nodes' % (consts['ExtraMod'], consts['ExtraPick'],
                                                                         consts['ExtraNodes'])
             if consts['ExtraNodes'] else ''),
@@ -730,6 +785,9 @@ def run(ctx):
         'pruning and selection matchers are taken from families that never give HARD_ERROR where they are applied '
         '(invariant WrapsDefined); the tree left behind by a HARD_ERROR of a FILE-LIST is compared with the fold of the '
         'entries before the failing one, except after a clash inside dir-contents-of (iteration order of the source)',
+        'a directory that is populated while it already has contents gets them from one shell command in [setup] '
+        '(mkdir, : >, ln -s); link targets are absolute paths into a directory of the task outside the sandbox that is '
+        'compared before / after; += through a link to an EXISTING file or directory is not explored',
         'symbolic links: to a regular file, to a directory outside the tree (with contents), broken; no link cycles; '
         'the model checking run with per-action coverage uses smaller constants (%s) than the runs that check the '
         'invariants and export (TLC\'s coverage mode is several times slower)' % json.dumps(COVERAGE),
@@ -800,8 +858,10 @@ def negative_controls(ctx, pop, pop_obs, tree_tasks, tree_obs, controls):
               and sc['exact']]
     for j in rnd.sample(ok_idx, min(60, len(ok_idx))):
         sc, o = pop[j], json.loads(json.dumps(pop_obs[j]))
-        m = tried % 5
-        if m == 0:
+        m = tried % 6
+        if m == 5:
+            o['out_changed'] = ['t-a']
+        elif m == 0:
             o['verdict'] = 'PASS' if sc['res'] != 'PASS' else 'HARD_ERROR'
         elif m == 1:
             if not o['act'] or len(o['act']) < 2:
